@@ -43,6 +43,9 @@ pub struct CheckSpec {
     pub wall_quick: f64,
     pub wall_thorough: f64,
     pub shrink_plan: bool,
+    /// Optional: reduce a failing case to the single fault point that failed (crash point,
+    /// failing call, corrupted offset) before it is written to the replay file.
+    pub narrow: Option<Box<dyn Fn(&Case, &Finding) -> Option<Case> + Sync + Send>>,
     pub exhaustive: bool,
     pub extra: Value,
 }
@@ -221,7 +224,20 @@ pub fn run_check(spec: &CheckSpec, tier: Tier) -> i32 {
     if let Some(h) = hits.into_iter().next() {
         violations = 1;
         println!("violation candidate in run {} (run_seed {:016x}): [{}] {}", h.index, h.case.run_seed, h.finding.signature, h.finding.detail);
-        let (case, res, finding, note) = if spec.shrink_plan { shrink(spec, &h.case, &h.res, &h.finding) } else { (h.case.clone(), h.res.clone(), h.finding.clone(), None) };
+        let mut h = h;
+        if let Some(narrow) = &spec.narrow {
+            if let Some(nc) = narrow(&h.case, &h.finding) {
+                let r = (spec.exec)(&nc);
+                if let Some(g) = same_violation(&r, spec.prop, &h.finding) {
+                    println!("  narrowed to the single failing fault point: {:?}", nc.params);
+                    h.case = nc;
+                    h.res = r;
+                    h.finding = g;
+                }
+            }
+        }
+        let shrinkable = matches!(h.case.engine, crate::exec::Engine::Hist | crate::exec::Engine::Conc);
+        let (case, res, finding, note) = if spec.shrink_plan && shrinkable { shrink(spec, &h.case, &h.res, &h.finding) } else { (h.case.clone(), h.res.clone(), h.finding.clone(), None) };
         // freeze the schedule into the replay file
         let mut rcase = case.clone();
         rcase.schedule = Some(res.schedule.clone());
